@@ -330,6 +330,8 @@ class Runner:
     def ev(self, node):
         """returns (real object, name of the python variable holding it); raises Fail if the code refuses"""
         kids = [self.kid(k, s) for k, s in zip(node.get("kids", []), kid_sorts(node))]
+        if node.get("self") and node.get("form") == "vv" and len(kids) == 2:
+            kids = [kids[0], kids[0]]        # `v op v`: the very same object on both sides
         objs = [k[0] for k in kids]
         srcs = [k[1] for k in kids]
         args = [observe(o) for o in objs]
@@ -669,7 +671,9 @@ class Runner:
             for j, f, nm in flat:
                 if f != "len":
                     base = names[j] or "col"
-                    san.append([base, _sanitize_user_name(base)])
+                    # non-string names are defined through their str() form: ask for that (a cache keyed on the raw
+                    # name object must not be able to answer for another object that merely hashes equal)
+                    san.append([base, _sanitize_user_name(base if isinstance(base, str) else str(base))])
             meth = "window" if node["window"] else "aggregate"
             over = [cols[k] for k in keys]
             ksrc = "[" + ", ".join(f"{A}.cols({k})" for k in keys) + "]"
@@ -747,6 +751,8 @@ def build(rng, sort, depth, n):
         form = rng.choice(["vv", "vv", "vs", "vl"] + (["sv", "lv"] if op == "arith" else []))
         node = {"op": op, "fn": rng.choice(list(BIN if op == "arith" else CMP)), "form": form,
                 "kids": [sub("v"), sub("v")] if form == "vv" else [sub("v")]}
+        if form == "vv" and rng.random() < 0.15:
+            node["self"] = True
         if "s" in form:
             node["s"] = rng.choice(SCALARS)
         if "l" in form:
